@@ -356,6 +356,39 @@ def iterProto : Nat → OnnxFn → List Proto × OnnxFn
   | 0, f => ([], f)
   | n + 1, f => let r := toProto f; let rs := iterProto n r.2; (r.1 :: rs.1, rs.2)
 
+/-! ## 6b. `to_model_proto(**overrides)` and the decorator's kwargs dict -/
+
+/-- keyword arguments; first occurrence of a key wins (`{**base, **over}` = `over ++ base`) -/
+abbrev KW := List (String × Val)
+
+/-- Python dict objects by identity: `script(**kwargs)` hands the SAME dict object to every
+`OnnxFunction` it creates (`main.script.transform`: `OnnxFunction(opset, f, result, src, kwargs)`). -/
+abbrev KWHeap := Nat → KW
+
+def KWHeap.set (h : KWHeap) (r : Nat) (kw : KW) : KWHeap := fun k => if k = r then kw else h k
+
+/-- an `OnnxFunction` as far as `to_model_proto` is concerned: its IR and a *reference* to its kwargs dict -/
+structure PFn where
+  ir : GExp
+  kwRef : Nat
+  deriving DecidableEq, Repr
+
+/-- `OnnxFunction.to_model_proto(**over)`: `merged = {**self.kwargs, **over}` (a new dict), the model is
+built from a clone of the IR and `merged`.  `aliasing = true` is the variant
+`merged = self.kwargs; merged.update(over)` which writes into the shared dict.  Returns the heap
+afterwards and the result (IR, effective keyword arguments). -/
+def callProto (aliasing : Bool) (h : KWHeap) (f : PFn) (over : KW) : KWHeap × (GExp × KW) :=
+  let merged := over ++ h f.kwRef
+  if aliasing then (h.set f.kwRef merged, (f.ir, merged)) else (h, (f.ir, merged))
+
+/-- a history of `to_model_proto` calls on arbitrary functions with arbitrary overrides -/
+def runCalls (aliasing : Bool) : KWHeap → List (PFn × KW) → KWHeap
+  | h, [] => h
+  | h, c :: cs => runCalls aliasing (callProto aliasing h c.1 c.2).1 cs
+
+/-- effective value of every key of `keys` (what the emitted ModelProto shows) -/
+def effective (kw : KW) (keys : List String) : List (Option Val) := keys.map (fun k => kw.lookup k)
+
 /-! ## 7. Converter object reuse (internal API) -/
 
 /-- `Converter` per-function state: the generated table lists the fields assigned in `__init__` under
